@@ -145,10 +145,17 @@ def run_script(sc):
             if cv is not None:
                 x = np.array(path_manager.payoff_control_variates, dtype=float)
                 st._cv_log.setdefault(int(level), {})[int(simulation)] = ((f, c), x[:, 0] if x.ndim == 2 else x[:, 0, :])
+            # the control variates' own (discounted) payoffs for the fine and the coarse path of this sample
+            xf, xc = [], []
+            if cv is not None:
+                x = np.array(path_manager.payoff_control_variates, dtype=float)
+                x = x.reshape((x.shape[0], -1))
+                xf = [exact_int(v / 0.5) for v in x[:, 0]]
+                xc = [exact_int(v / 0.5) for v in x[:, 1]] if x.shape[1] > 1 else [0] * x.shape[0]
             if giles:
-                emit(e="Add", lvl=int(level), idx=int(simulation), f=0, c=0)
+                emit(e="Add", lvl=int(level), idx=int(simulation), f=0, c=0, xf=[], xc=[])
             else:
-                emit(e="Add", lvl=int(level), idx=int(simulation), f=exact_int(f / 0.5), c=exact_int(c / 0.5))
+                emit(e="Add", lvl=int(level), idx=int(simulation), f=exact_int(f / 0.5), c=exact_int(c / 0.5), xf=xf, xc=xc)
 
         def extend(mc_paths):
             emit(e="Ext", arg=[int(x) for x in mc_paths])
